@@ -24,6 +24,7 @@ package bufcheck
 //@ trusted pure interface protoversion.PackageVersion
 //@ trusted pure interface RuleOrCategory
 //@ trusted pure interface Rule
+//@ trusted pure interface Category
 //
 // C06: suppression. checkCommentLineForCheckIgnore: the line must start with "<prefix> <ruleID>".
 //@ pure func checkCommentLineForCheckIgnore(commentLine, commentIgnorePrefix, ruleID) (r)
@@ -45,6 +46,18 @@ package bufcheck
 //@   ensures negative-needs-comment-check: err == nil && !r && old(config.AllowCommentIgnores) && old(config.CommentIgnorePrefix) != "" && len(fileLocation.SourcePath()) > 0 ==> ghost.commentsConsulted
 //@   ensures only-documented-reasons: r && !old(config.IgnoreUnstablePackages) && !(old(config.AllowCommentIgnores) && old(config.CommentIgnorePrefix) != "") ==> ((old(config.ExcludeImports) && fileLocation.FileDescriptor().IsImport()) || (exists k string :: k in old(config.IgnoreRootPaths) && ancOrSelf(k, fileLocation.FileDescriptor().ProtoreflectFileDescriptor().Path())) || (ruleID in old(config.IgnoreRuleIDToRootPaths) && (exists k string :: k in old(config.IgnoreRuleIDToRootPaths)[ruleID] && ancOrSelf(k, fileLocation.FileDescriptor().ProtoreflectFileDescriptor().Path()))))
 //
+// filterAnnotations: suppression only ever REMOVES annotations. The result is a sub-sequence of the reported
+// annotations (each kept one is a reported one, relative order kept, never longer); an error of the suppression
+// check yields no annotations at all. (Which ones are dropped is decided per annotation by ignoreAnnotation ->
+// ignoreFileLocation above; the element-wise "kept iff the callback accepts" is slicesext.FilterError's verified contract.)
+//@ func filterAnnotations(config, annotations) (r, err)
+//@   property C06
+//@   modifies heap
+//@   ensures never-adds: err == nil ==> len(r) <= len(annotations) && (forall a int :: 0 <= a && a < len(r) ==> (exists i int :: 0 <= i && i < len(annotations) && annotations[i] == r[a]))
+//@   ensures order-kept: err == nil ==> (forall a int, b int :: 0 <= a && a < b && b < len(r) ==> (exists i int, j int :: 0 <= i && i < j && j < len(annotations) && annotations[i] == r[a] && annotations[j] == r[b]))
+//@   ensures error-yields-nothing: err != nil ==> len(r) == 0
+//@   canary ensures len(r) == len(annotations)
+//
 // Rule / category expansion: the result is exactly the union of the expansions; an unknown ID is an error.
 //@ func transformRuleOrCategoryIDsToRuleIDs(ruleOrCategoryIDs, ruleIDToCategoryIDs, categoryIDToRuleIDs) (r, err)
 //@   property C06
@@ -63,11 +76,47 @@ package bufcheck
 //@   loop 1 invariant forall q int :: 0 <= q && q < $i1 ==> ruleIDs[q] in ruleIDMap
 //@   canary ensures err != nil
 //
+// rulesForType: exactly the rules of the asked type, each one an element of the input, in input order.
+//@ func rulesForType(allRules, ruleType) (r)
+//@   property C06
+//@   closure 0 ensures r == (rule.Type() == ruleType)
+//@   ensures only-of-type: forall a int :: 0 <= a && a < len(r) ==> r[a].Type() == ruleType && (exists j int :: 0 <= j && j < len(allRules) && allRules[j] == r[a])
+//@   ensures all-of-type: forall j int :: 0 <= j && j < len(allRules) && allRules[j].Type() == ruleType ==> (exists a int :: 0 <= a && a < len(r) && r[a] == allRules[j])
+//
 //@ func getIDToRuleOrCategory(ruleOrCategories) (m, err)
 //@   property C06
 //@   ensures keyed-by-id: err == nil ==> m != nil && (forall k string :: k in m ==> m[k].ID() == k)
 //@   ensures all-present: err == nil ==> (forall j int :: 0 <= j && j < len(ruleOrCategories) ==> ruleOrCategories[j].ID() in m)
 //@   loop 0 invariant m != nil && (forall k string :: k in m ==> m[k].ID() == k) && (forall j int :: 0 <= j && j < $i ==> ruleOrCategories[j].ID() in m)
+//
+// Category membership tables: rule ID -> the IDs of the categories the rule declares (duplicate rule IDs are an
+// error), and its inverse category ID -> rule IDs. A category name therefore expands to exactly the rules that
+// declare it.
+//@ func getRuleIDToCategoryIDs(rules) (m, err)
+//@   property C06
+//@   ensures declared-categories: err == nil ==> m != nil && (forall j int :: 0 <= j && j < len(rules) ==> rules[j].ID() in m && len(m[rules[j].ID()]) == len(rules[j].Categories()) && (forall q int :: 0 <= q && q < len(rules[j].Categories()) ==> m[rules[j].ID()][q] == rules[j].Categories()[q].ID()))
+//@   ensures only-rules: err == nil ==> (forall k string :: k in m ==> (exists j int :: 0 <= j && j < len(rules) && rules[j].ID() == k))
+//@   ensures duplicates-rejected: err == nil ==> (forall i int, j int :: 0 <= i && i < j && j < len(rules) ==> rules[i].ID() != rules[j].ID())
+//@   loop 0 invariant m != nil
+//@   loop 0 invariant forall j int :: 0 <= j && j < $i ==> rules[j].ID() in m && len(m[rules[j].ID()]) == len(rules[j].Categories()) && (forall q int :: 0 <= q && q < len(rules[j].Categories()) ==> m[rules[j].ID()][q] == rules[j].Categories()[q].ID())
+//@   loop 0 invariant forall k string :: k in m ==> (exists j int :: 0 <= j && j < $i && rules[j].ID() == k)
+//@   loop 0 invariant forall i int, j int :: 0 <= i && i < j && j < $i ==> rules[i].ID() != rules[j].ID()
+//@   canary ensures err != nil
+//
+//@ func getCategoryIDToRuleIDs(ruleIDToCategoryIDs) (r)
+//@   property C06
+//@   reveal inSlice
+//@   ensures inverse-sound: r != nil && (forall c string, x string :: c in r && inSlice(r[c], x) ==> x in ruleIDToCategoryIDs && inSlice(ruleIDToCategoryIDs[x], c))
+//@   ensures inverse-complete: forall x string, q int :: x in ruleIDToCategoryIDs && 0 <= q && q < len(ruleIDToCategoryIDs[x]) ==> ruleIDToCategoryIDs[x][q] in r && inSlice(r[ruleIDToCategoryIDs[x][q]], x)
+//@   loop 0 invariant categoryIDToRuleIDs != nil && (forall c string :: c in categoryIDToRuleIDs ==> len(categoryIDToRuleIDs[c]) >= 0)
+//@   loop 0 invariant forall c string, x string :: c in categoryIDToRuleIDs && inSlice(categoryIDToRuleIDs[c], x) ==> x in $visited && x in ruleIDToCategoryIDs && inSlice(ruleIDToCategoryIDs[x], c)
+//@   loop 0 invariant forall x string, q int :: x in $visited && x in ruleIDToCategoryIDs && 0 <= q && q < len(ruleIDToCategoryIDs[x]) ==> ruleIDToCategoryIDs[x][q] in categoryIDToRuleIDs && inSlice(categoryIDToRuleIDs[ruleIDToCategoryIDs[x][q]], x)
+//@   loop 1 invariant categoryIDToRuleIDs != nil && (forall c string :: c in categoryIDToRuleIDs ==> len(categoryIDToRuleIDs[c]) >= 0)
+//@   loop 1 invariant forall c string, x string :: c in categoryIDToRuleIDs && inSlice(categoryIDToRuleIDs[c], x) ==> x in ruleIDToCategoryIDs && ((x in $visited0 && inSlice(ruleIDToCategoryIDs[x], c)) || (x == id && (exists q int :: 0 <= q && q < $i1 && categoryIDs[q] == c)))
+// the inner loop only appends: every list it found is a prefix of the list it leaves (so the rules recorded by earlier iterations stay)
+//@   loop 1 invariant forall c string :: c in $entry(categoryIDToRuleIDs) ==> c in categoryIDToRuleIDs && len(categoryIDToRuleIDs[c]) >= len($entry(categoryIDToRuleIDs)[c]) && (forall w int :: 0 <= w && w < len($entry(categoryIDToRuleIDs)[c]) ==> categoryIDToRuleIDs[c][w] == $entry(categoryIDToRuleIDs)[c][w])
+// witness-free form of "id is in the list of every category handled so far": it is the LAST element (only id is appended in this loop)
+//@   loop 1 invariant forall q int :: 0 <= q && q < $i1 ==> categoryIDs[q] in categoryIDToRuleIDs && len(categoryIDToRuleIDs[categoryIDs[q]]) > 0 && categoryIDToRuleIDs[categoryIDs[q]][len(categoryIDToRuleIDs[categoryIDs[q]]) - 1] == id
 //
 // Deprecated IDs behave as their replacements: a deprecated ID is replaced by exactly its replacement IDs.
 //@ func transformRuleIDsToUndeprecated(ruleIDs, deprecatedRuleIDToReplacementIDs) (r)
@@ -83,11 +132,60 @@ package bufcheck
 //@   loop 1 invariant forall j int, x string :: 0 <= j && j < $i0 && ((!(ruleIDs[j] in deprecatedRuleIDToReplacementIDs) && x == ruleIDs[j]) || (ruleIDs[j] in deprecatedRuleIDToReplacementIDs && inSlice(deprecatedRuleIDToReplacementIDs[ruleIDs[j]], x))) ==> x in undeprecatedRuleIDMap
 //@   loop 1 invariant forall q int :: 0 <= q && q < $i1 ==> replacementIDs[q] in undeprecatedRuleIDMap
 //
-// (not yet discharged; assumed) ignore_only keys are undeprecated the same way
-//@ trusted func transformRuleIDToIgnoreRootPathsToUndeprecated(ruleIDToIgnoreRootPaths, deprecatedRuleIDToReplacementIDs) (r)
+// ignore_only keys are undeprecated the same way (verified against the body): the keys are exactly the
+// non-deprecated keys plus the replacements of the deprecated keys; every path listed comes from the key itself or
+// from a deprecated key it replaces (nothing else is added); the paths of a deprecated ID are carried to EACH of its
+// replacements and the paths of a non-deprecated ID are kept.
+//@ func transformRuleIDToIgnoreRootPathsToUndeprecated(ruleIDToIgnoreRootPaths, deprecatedRuleIDToReplacementIDs) (r)
+//@   property C06
+//@   reveal inSlice
 //@   ensures forall id string :: id in r ==> ((id in ruleIDToIgnoreRootPaths && !(id in deprecatedRuleIDToReplacementIDs)) || (exists d string :: d in ruleIDToIgnoreRootPaths && d in deprecatedRuleIDToReplacementIDs && inSlice(deprecatedRuleIDToReplacementIDs[d], id)))
-//@ trusted func GetDeprecatedIDToReplacementIDs(rulesOrCategories) (r, err)
-//@   ensures err == nil ==> (forall d string, x string :: d in r && inSlice(r[d], x) ==> !(x in r))
+//@   ensures keys-complete: r != nil && (forall id string :: id in ruleIDToIgnoreRootPaths && !(id in deprecatedRuleIDToReplacementIDs) ==> id in r) && (forall d string, q int :: d in ruleIDToIgnoreRootPaths && d in deprecatedRuleIDToReplacementIDs && 0 <= q && q < len(deprecatedRuleIDToReplacementIDs[d]) ==> deprecatedRuleIDToReplacementIDs[d][q] in r)
+//@   ensures nothing-else-added: forall id string, p string :: id in r && p in r[id] ==> ((id in ruleIDToIgnoreRootPaths && !(id in deprecatedRuleIDToReplacementIDs) && p in ruleIDToIgnoreRootPaths[id]) || (exists d string :: d in ruleIDToIgnoreRootPaths && d in deprecatedRuleIDToReplacementIDs && inSlice(deprecatedRuleIDToReplacementIDs[d], id) && p in ruleIDToIgnoreRootPaths[d]))
+//@   ensures paths-kept: forall id string, p string :: id in ruleIDToIgnoreRootPaths && !(id in deprecatedRuleIDToReplacementIDs) && p in ruleIDToIgnoreRootPaths[id] ==> id in r && p in r[id]
+//@   ensures paths-carried-to-each-replacement: forall d string, q int, p string :: d in ruleIDToIgnoreRootPaths && d in deprecatedRuleIDToReplacementIDs && 0 <= q && q < len(deprecatedRuleIDToReplacementIDs[d]) && p in ruleIDToIgnoreRootPaths[d] ==> deprecatedRuleIDToReplacementIDs[d][q] in r && p in r[deprecatedRuleIDToReplacementIDs[d][q]]
+//@   canary ensures forall id string, p string :: id in r ==> !(p in r[id])
+// loop 0 is the loop of the closure addRootPaths (called from two places): relative to ITS entry it adds exactly the visited paths to the entry of ruleID
+//@   loop 0 invariant undeprecatedRuleIDToIgnoreRootPaths != nil && ignoreRootPathMap != nil && ruleID in undeprecatedRuleIDToIgnoreRootPaths && undeprecatedRuleIDToIgnoreRootPaths[ruleID] == ignoreRootPathMap
+//@   loop 0 invariant forall p string :: (p in ignoreRootPathMap) <==> (p in $entry(ignoreRootPathMap) || p in $visited)
+//@   loop 0 invariant forall id string :: id != ruleID ==> ((id in undeprecatedRuleIDToIgnoreRootPaths) <==> (id in $entry(undeprecatedRuleIDToIgnoreRootPaths))) && undeprecatedRuleIDToIgnoreRootPaths[id] == $entry(undeprecatedRuleIDToIgnoreRootPaths)[id]
+//@   loop 0 invariant forall p string :: p in $visited ==> p in rootPaths
+//@   loop 1 invariant undeprecatedRuleIDToIgnoreRootPaths != nil && (forall k string :: k in $visited ==> k in ruleIDToIgnoreRootPaths) && (forall id string :: id in undeprecatedRuleIDToIgnoreRootPaths ==> undeprecatedRuleIDToIgnoreRootPaths[id] != nil)
+//@   loop 1 invariant forall id string, p string :: id in undeprecatedRuleIDToIgnoreRootPaths && p in undeprecatedRuleIDToIgnoreRootPaths[id] ==> ((id in $visited && id in ruleIDToIgnoreRootPaths && !(id in deprecatedRuleIDToReplacementIDs) && p in ruleIDToIgnoreRootPaths[id]) || (exists d string :: d in $visited && d in ruleIDToIgnoreRootPaths && d in deprecatedRuleIDToReplacementIDs && inSlice(deprecatedRuleIDToReplacementIDs[d], id) && p in ruleIDToIgnoreRootPaths[d]))
+//@   loop 1 invariant forall id string :: id in undeprecatedRuleIDToIgnoreRootPaths ==> ((id in $visited && id in ruleIDToIgnoreRootPaths && !(id in deprecatedRuleIDToReplacementIDs)) || (exists d string :: d in $visited && d in ruleIDToIgnoreRootPaths && d in deprecatedRuleIDToReplacementIDs && inSlice(deprecatedRuleIDToReplacementIDs[d], id)))
+//@   loop 1 invariant forall id string :: id in $visited && id in ruleIDToIgnoreRootPaths && !(id in deprecatedRuleIDToReplacementIDs) ==> id in undeprecatedRuleIDToIgnoreRootPaths && (forall p string :: p in ruleIDToIgnoreRootPaths[id] ==> p in undeprecatedRuleIDToIgnoreRootPaths[id])
+//@   loop 1 invariant forall d string, q int :: d in $visited && d in ruleIDToIgnoreRootPaths && d in deprecatedRuleIDToReplacementIDs && 0 <= q && q < len(deprecatedRuleIDToReplacementIDs[d]) ==> deprecatedRuleIDToReplacementIDs[d][q] in undeprecatedRuleIDToIgnoreRootPaths && (forall p string :: p in ruleIDToIgnoreRootPaths[d] ==> p in undeprecatedRuleIDToIgnoreRootPaths[deprecatedRuleIDToReplacementIDs[d][q]])
+//@   loop 2 invariant undeprecatedRuleIDToIgnoreRootPaths != nil && (forall k string :: k in $visited1 ==> k in ruleIDToIgnoreRootPaths) && (forall id string :: id in undeprecatedRuleIDToIgnoreRootPaths ==> undeprecatedRuleIDToIgnoreRootPaths[id] != nil)
+//@   loop 2 invariant forall id string, p string :: id in undeprecatedRuleIDToIgnoreRootPaths && p in undeprecatedRuleIDToIgnoreRootPaths[id] ==> ((id in add($visited1, ruleID) && id in ruleIDToIgnoreRootPaths && !(id in deprecatedRuleIDToReplacementIDs) && p in ruleIDToIgnoreRootPaths[id]) || (exists d string :: d in add($visited1, ruleID) && d in ruleIDToIgnoreRootPaths && d in deprecatedRuleIDToReplacementIDs && inSlice(deprecatedRuleIDToReplacementIDs[d], id) && p in ruleIDToIgnoreRootPaths[d]))
+//@   loop 2 invariant forall id string :: id in undeprecatedRuleIDToIgnoreRootPaths ==> ((id in add($visited1, ruleID) && id in ruleIDToIgnoreRootPaths && !(id in deprecatedRuleIDToReplacementIDs)) || (exists d string :: d in add($visited1, ruleID) && d in ruleIDToIgnoreRootPaths && d in deprecatedRuleIDToReplacementIDs && inSlice(deprecatedRuleIDToReplacementIDs[d], id)))
+//@   loop 2 invariant forall id string :: id in $visited1 && id in ruleIDToIgnoreRootPaths && !(id in deprecatedRuleIDToReplacementIDs) ==> id in undeprecatedRuleIDToIgnoreRootPaths && (forall p string :: p in ruleIDToIgnoreRootPaths[id] ==> p in undeprecatedRuleIDToIgnoreRootPaths[id])
+//@   loop 2 invariant forall d string, q int :: d in $visited1 && d in ruleIDToIgnoreRootPaths && d in deprecatedRuleIDToReplacementIDs && 0 <= q && q < len(deprecatedRuleIDToReplacementIDs[d]) ==> deprecatedRuleIDToReplacementIDs[d][q] in undeprecatedRuleIDToIgnoreRootPaths && (forall p string :: p in ruleIDToIgnoreRootPaths[d] ==> p in undeprecatedRuleIDToIgnoreRootPaths[deprecatedRuleIDToReplacementIDs[d][q]])
+//@   loop 2 invariant forall q int :: 0 <= q && q < $i2 ==> replacementIDs[q] in undeprecatedRuleIDToIgnoreRootPaths && (forall p string :: p in rootPaths ==> p in undeprecatedRuleIDToIgnoreRootPaths[replacementIDs[q]])
+// GetDeprecatedIDToReplacementIDs (verified against its body): the keys are exactly the IDs of the deprecated rules /
+// categories; a deprecated ID maps to exactly its replacement IDs (element-wise; an absent list becomes the empty,
+// non-nil list; stated for IDs that occur once - duplicates are rejected for every non-empty ID); every replacement
+// ID is the ID of a given rule / category (an unknown one is an error).
+// The clause "a replacement is not itself deprecated" was ASSUMED unconditionally before; the code does not
+// establish it (input: A deprecated -> [B], B deprecated -> [C] gives {A:[B], B:[C]}, nil). It is an invariant of the
+// INPUT, enforced where rule / category specs are validated (bufplugin check.ValidateRuleSpecs / category specs:
+// "Deprecated ID %q specified replacement ID %q which also deprecated"), so it is now proved under that hypothesis.
+//@ func GetDeprecatedIDToReplacementIDs(rulesOrCategories) (r, err)
+//@   property C06
+//@   reveal inSlice
+//@   closure 0 ensures r == ruleOrCategory.ID()
+//@   ensures keys-exactly-deprecated: err == nil ==> r != nil && (forall d string :: (d in r) <==> (exists j int :: 0 <= j && j < len(rulesOrCategories) && rulesOrCategories[j].Deprecated() && rulesOrCategories[j].ID() == d))
+//@   ensures exactly-replacements: err == nil ==> (forall j int :: 0 <= j && j < len(rulesOrCategories) && rulesOrCategories[j].Deprecated() && (forall i int :: 0 <= i && i < len(rulesOrCategories) && i != j ==> rulesOrCategories[i].ID() != rulesOrCategories[j].ID()) ==> len(r[rulesOrCategories[j].ID()]) == len(rulesOrCategories[j].ReplacementIDs()) && !isNilSlice(r[rulesOrCategories[j].ID()]) && (forall q int :: 0 <= q && q < len(rulesOrCategories[j].ReplacementIDs()) ==> r[rulesOrCategories[j].ID()][q] == rulesOrCategories[j].ReplacementIDs()[q]))
+//@   ensures values-are-replacements: err == nil ==> (forall d string :: d in r ==> (exists j int :: 0 <= j && j < len(rulesOrCategories) && rulesOrCategories[j].Deprecated() && rulesOrCategories[j].ID() == d && len(r[d]) == len(rulesOrCategories[j].ReplacementIDs()) && (forall q int :: 0 <= q && q < len(rulesOrCategories[j].ReplacementIDs()) ==> r[d][q] == rulesOrCategories[j].ReplacementIDs()[q])))
+//@   ensures unknown-replacement-rejected: err == nil ==> (forall j int, q int :: 0 <= j && j < len(rulesOrCategories) && rulesOrCategories[j].Deprecated() && 0 <= q && q < len(rulesOrCategories[j].ReplacementIDs()) ==> (exists i int :: 0 <= i && i < len(rulesOrCategories) && rulesOrCategories[i].ID() == rulesOrCategories[j].ReplacementIDs()[q]))
+//@   ensures replacements-known: err == nil ==> (forall d string, x string :: d in r && inSlice(r[d], x) ==> (exists i int :: 0 <= i && i < len(rulesOrCategories) && rulesOrCategories[i].ID() == x))
+//@   ensures replacements-not-deprecated: err == nil && (forall i int, j int, q int :: 0 <= i && i < len(rulesOrCategories) && 0 <= j && j < len(rulesOrCategories) && rulesOrCategories[i].Deprecated() && 0 <= q && q < len(rulesOrCategories[i].ReplacementIDs()) && rulesOrCategories[j].ID() == rulesOrCategories[i].ReplacementIDs()[q] ==> !rulesOrCategories[j].Deprecated()) ==> (forall d string, x string :: d in r && inSlice(r[d], x) ==> !(x in r))
+//@   loop 0 invariant idToReplacementIDs != nil
+//@   loop 0 invariant forall d string :: d in idToReplacementIDs ==> (exists j int :: 0 <= j && j < $i0 && rulesOrCategories[j].Deprecated() && rulesOrCategories[j].ID() == d && len(idToReplacementIDs[d]) == len(rulesOrCategories[j].ReplacementIDs()) && (forall q int :: 0 <= q && q < len(rulesOrCategories[j].ReplacementIDs()) ==> idToReplacementIDs[d][q] == rulesOrCategories[j].ReplacementIDs()[q]))
+//@   loop 0 invariant forall j int :: 0 <= j && j < $i0 && rulesOrCategories[j].Deprecated() ==> rulesOrCategories[j].ID() in idToReplacementIDs
+//@   loop 0 invariant forall j int, q int :: 0 <= j && j < $i0 && rulesOrCategories[j].Deprecated() && 0 <= q && q < len(rulesOrCategories[j].ReplacementIDs()) ==> rulesOrCategories[j].ReplacementIDs()[q] in idToRuleOrCategory
+//@   loop 0 invariant forall j int :: 0 <= j && j < $i0 && rulesOrCategories[j].Deprecated() && (forall i int :: 0 <= i && i < len(rulesOrCategories) && i != j ==> rulesOrCategories[i].ID() != rulesOrCategories[j].ID()) ==> len(idToReplacementIDs[rulesOrCategories[j].ID()]) == len(rulesOrCategories[j].ReplacementIDs()) && !isNilSlice(idToReplacementIDs[rulesOrCategories[j].ID()]) && (forall q int :: 0 <= q && q < len(rulesOrCategories[j].ReplacementIDs()) ==> idToReplacementIDs[rulesOrCategories[j].ID()][q] == rulesOrCategories[j].ReplacementIDs()[q])
+//@   loop 1 invariant forall q int :: 0 <= q && q < $i1 ==> replacementIDs[q] in idToRuleOrCategory
+//@   canary ensures err != nil
 //
 // The selection law, at the point where the result set is complete:
 // rules(config) = undeprecate(expand(use)) \ undeprecate(expand(except)); and after undeprecation no
@@ -96,6 +194,10 @@ package bufcheck
 //@   property C06
 //@   modifies heap
 //@   reveal inSlice
+// documented input invariant (rule specs are validated where they are created, see GetDeprecatedIDToReplacementIDs):
+// the replacement of a deprecated rule is not itself deprecated. Before, this was assumed inside the trusted
+// contract of GetDeprecatedIDToReplacementIDs; it is needed only for the assert ignore-only-undeprecated.
+//@   requires replacements-not-deprecated: forall i int, j int, q int :: 0 <= i && i < len(allRules) && 0 <= j && j < len(allRules) && allRules[i].Deprecated() && 0 <= q && q < len(allRules[i].ReplacementIDs()) && allRules[j].ID() == allRules[i].ReplacementIDs()[q] ==> !allRules[j].Deprecated()
 // the bookkeeping loop for deprecation warnings writes through aliased inner maps (outside the fragment);
 // it is abstracted by havoc of what it assigns: it feeds only the warning maps, not the rule selection
 //@   skip "for _, ids := range [][]string{"
